@@ -153,6 +153,70 @@ theorem possible_ne_none (v : PyV) (hv : v ≠ .none) (ms : List String) (inv : 
         else if ms.contains (String.ofList (lower (tostr v))) then .ok (.str (lower (tostr v))) else handleInvalid inv := by
   cases v <;> first | exact absurd rfl hv | rfl
 
+/-! ### constants.py (`_special_value_*`) after conversions.py -/
+
+/-- The context of the `k+1`-th dumped function of constants.py: conversions.py and the `k` functions before it. -/
+def cxC (parseInt : Str → Except PyErr Int) (k : Nat) : Ctx :=
+  { parseInt := parseInt, funs := callIn parseInt (constants_scope.take (8 + k)).reverse }
+
+theorem linkC_1 : runModule parseInt constants_scope "_special_value_rows" args
+    = run (cxC parseInt 0) _special_value_rows_ast args := rfl
+theorem linkC_2 : runModule parseInt constants_scope "_special_value_cols" args
+    = run (cxC parseInt 1) _special_value_cols_ast args := rfl
+theorem linkC_3 : runModule parseInt constants_scope "_special_value_autocomplete" args
+    = run (cxC parseInt 2) _special_value_autocomplete_ast args := rfl
+theorem linkC_4 : runModule parseInt constants_scope "_special_value_size" args
+    = run (cxC parseInt 3) _special_value_size_ast args := rfl
+theorem linkC_5 : runModule parseInt constants_scope "_special_value_maxLength" args
+    = run (cxC parseInt 4) _special_value_maxLength_ast args := rfl
+
+@[simp] theorem cxC_parseInt (k : Nat) : (cxC parseInt k).parseInt = parseInt := rfl
+
+/-- The imported converters, as constants.py sees them: the functions of conversions.py in their own contexts. -/
+theorem cxC_intRange (k : Nat) (hk : k ≤ 4) :
+    (cxC parseInt k).funs "convertToIntRange" = some (runKw (cxAt parseInt 6) convertToIntRange_ast) := by
+  have : k = 0 ∨ k = 1 ∨ k = 2 ∨ k = 3 ∨ k = 4 := by omega
+  rcases this with rfl | rfl | rfl | rfl | rfl <;> rfl
+theorem cxC_possible (k : Nat) (hk : k ≤ 4) :
+    (cxC parseInt k).funs "convertPossibleValues" = some (runKw (cxAt parseInt 5) convertPossibleValues_ast) := by
+  have : k = 0 ∨ k = 1 ∨ k = 2 ∨ k = 3 ∨ k = 4 := by omega
+  rcases this with rfl | rfl | rfl | rfl | rfl <;> rfl
+theorem cxC_positiveInt (k : Nat) (hk : k ≤ 4) :
+    (cxC parseInt k).funs "convertToPositiveInt" = some (runKw (cxAt parseInt 3) convertToPositiveInt_ast) := by
+  have : k = 0 ∨ k = 1 ∨ k = 2 ∨ k = 3 ∨ k = 4 := by omega
+  rcases this with rfl | rfl | rfl | rfl | rfl <;> rfl
+
+/-! keyword calls of the converters as they occur in constants.py = the positional calls -/
+
+theorem intRange_kw (v a b d c : Val) :
+    runKw (cxAt parseInt 6) convertToIntRange_ast [v]
+        [("minValue", a), ("maxValue", b), ("invalidDefault", d), ("emptyValue", c)]
+      = run (cxAt parseInt 6) convertToIntRange_ast [v, a, b, d, c] := by
+  simp [run, runKw, convertToIntRange_ast, bindArgs, List.lookup, List.filter]
+
+theorem intRange_kw' (v a b d c : Val) :
+    runKw (cxAt parseInt 6) convertToIntRange_ast [v]
+        [("minValue", a), ("maxValue", b), ("emptyValue", c), ("invalidDefault", d)]
+      = run (cxAt parseInt 6) convertToIntRange_ast [v, a, b, d, c] := by
+  simp [run, runKw, convertToIntRange_ast, bindArgs, List.lookup, List.filter]
+
+theorem possible_kw (v ms d c : Val) :
+    runKw (cxAt parseInt 5) convertPossibleValues_ast [v, ms] [("invalidDefault", d), ("emptyValue", c)]
+      = run (cxAt parseInt 5) convertPossibleValues_ast [v, ms, d, c] := by
+  simp [run, runKw, convertPossibleValues_ast, bindArgs, List.lookup, List.filter]
+
+theorem positiveInt_kw (v d : Val) :
+    runKw (cxAt parseInt 3) convertToPositiveInt_ast [v] [("invalidDefault", d)]
+      = run (cxAt parseInt 3) convertToPositiveInt_ast [v, d] := by
+  simp [run, runKw, convertToPositiveInt_ast, bindArgs, List.lookup, List.filter]
+
+theorem toList_eq_iff (s t : String) : s.toList = t.toList ↔ s = t := by
+  constructor
+  · intro h
+    have := congrArg String.ofList h
+    simpa using this
+  · intro h; rw [h]
+
 /-- Unfold the interpreter on the body of a dumped function of conversions.py (after `simp only [link_k, run, runKw, f_ast]`;
 `runKw` itself is not in the set, so that the call of `_handleInvalid` is rewritten by `handleInvalid_run`). -/
 macro "py_eval" : tactic => `(tactic| simp [
